@@ -79,6 +79,12 @@ Theorem c17_agent_uses_signal_and_propensity : forall lognormal tanh64 k e c a o
    Ok (e2, c2, AMomentum a live' first n p (Some mid) m)).
 Proof. reflexivity. Qed.
 
+(** the mid-price an agent reads from a book satisfying the invariant is such a half-integer *)
+Theorem c17_mid_price_is_small_half_integer : forall e a b,
+  nth_error (en_market e) a = Some b -> Proofs.Refine.InvQ None b ->
+  mid_f64 e a = Ok (h (mid_price_x2 b)) /\ (Z.of_N (mid_price_x2 b) < 2 ^ 52)%Z.
+Proof. intros e a b H I. split; [apply mid_f64_is_half; assumption | apply mid_price_small; assumption]. Qed.
+
 Check c17_flat_no_orders.
 Check c17_direction_follows_sign.
 Check c17_mirrored_history_step.
@@ -88,3 +94,4 @@ Print Assumptions c17_direction_follows_sign.
 Print Assumptions c17_opposite_signal_opposite_sign.
 Print Assumptions c17_mirrored_history_step.
 Print Assumptions c17_agent_uses_signal_and_propensity.
+Print Assumptions c17_mid_price_is_small_half_integer.
